@@ -1,2 +1,114 @@
--- stub driver, replaced by the builder of X07
-def main : IO Unit := pure ()
+import PyramidModel.Prelude
+import PyramidModel.Mount
+import PyramidModel.Lemmas.MountSpec
+/-! Driver for X07: one JSON case per line.  Text t = list of code points; OT = null | t.
+in : {"op":"direct","sn":OT,"pi":OT,"sp": null | [t,…]}            call_app_with_subpath_as_path_info(request, app)
+     {"op":"route","kind":"wsgiapp"|"wsgiapp2","pre":t,"sn":OT,"pi":OT}     Router, route pre*subpath, mounted view
+     {"op":"trav","kind":…,"vn":t,"tree":T,"sn":OT,"pi":OT}          Router, traversal of T, mounted view named vn
+                                                                     T = {"g":bool,"k":[[t,T],…]}
+     {"op":"nested","pre1":t,"pre2":t,"sn":OT,"pi":OT}               wsgiapp2 under pre1*subpath mounting a Pyramid
+                                                                     application that mounts under pre2*subpath
+out: R    = {"ok":[OT,OT]} | {"err":E}        E = "UnicodeDecodeError" | "UnicodeEncodeError" | "URLDecodeError"
+     direct {"res":R,"spec":R,"again": null | R}      again = the rewrite applied once more to its own result, same subpath
+     route  {"err":E} | {"match":false} | {"match":true,"sp":[t…],"res":R}
+     trav   {"err":E} | {"view":t,"ctx":[t…],"sp":[t…],"res": null | R}
+     nested {"err":E} | {"match":false} | {"match":true,"sp":[t…],"res":{"err":E}}
+            | {"match":true,"sp":[t…],"res":{"ok":[OT,OT]},"inner": <route output>} -/
+open Pyr Pyr.Mount Lean
+
+namespace DrvX07
+
+def textOf (j : Json) : Except String Text := do
+  let cs : List Nat ← fromJson? j
+  if cs.all Nat.isValidChar then pure (cs.map Char.ofNat) else throw "not a scalar value"
+
+def optTextOf (j : Json) : Except String (Option Text) :=
+  match j with
+  | .null => pure none
+  | _ => some <$> textOf j
+
+def jText (t : Text) : Json := toJson (t.map Char.toNat)
+
+def jOptText : Option Text → Json
+  | none => Json.null
+  | some t => jText t
+
+def jTexts (ts : List Text) : Json := Json.arr (ts.map jText).toArray
+
+def arrOf (j : Json) : Except String (List Json) :=
+  match j with
+  | .arr xs => pure xs.toList
+  | _ => throw "expected a list"
+
+def envOf (j : Json) : Except String Env := do
+  pure { scriptName := ← optTextOf (← getField j "sn"), pathInfo := ← optTextOf (← getField j "pi") }
+
+def jErr : Err → Json
+  | .unicodeDecode => "UnicodeDecodeError"
+  | .unicodeEncode => "UnicodeEncodeError"
+  | .urlDecode => "URLDecodeError"
+
+def jRes : Except Err Env → Json
+  | .error e => Json.mkObj [("err", jErr e)]
+  | .ok e => Json.mkObj [("ok", Json.arr #[jOptText e.scriptName, jOptText e.pathInfo])]
+
+def kindOf (j : Json) : Except String Kind := do
+  let k : String ← getAs j "kind"
+  if k = "wsgiapp" then pure .plain else if k = "wsgiapp2" then pure .fixup else throw "bad kind"
+
+partial def treeOf (j : Json) : Except String Trav.Tree := do
+  let g : Bool ← getAs j "g"
+  let ks ← arrOf (← getField j "k")
+  let kids ← ks.mapM fun p =>
+    match p with
+    | .arr #[a, b] => do pure (← textOf a, ← treeOf b)
+    | _ => throw "bad child"
+  pure (.mk g kids)
+
+def jRoute : Except Err RouteOut → Json
+  | .error e => Json.mkObj [("err", jErr e)]
+  | .ok none => Json.mkObj [("match", false)]
+  | .ok (some (sp, r)) => Json.mkObj [("match", true), ("sp", jTexts sp), ("res", jRes r)]
+
+def run (j : Json) : Except String Json := do
+  let op : String ← getAs j "op"
+  let e ← envOf j
+  match op with
+  | "direct" =>
+    let sp : List Text ←
+      match ← getField j "sp" with
+      | .null => pure []
+      | x => (← arrOf x).mapM textOf
+    let again : Json :=
+      match rewrite e sp with
+      | .ok e1 => jRes (rewrite e1 sp)
+      | .error _ => Json.null
+    pure (Json.mkObj [("res", jRes (rewrite e sp)), ("spec", jRes (specRewrite e sp)), ("again", again)])
+  | "route" =>
+    let k ← kindOf j
+    let pre ← textOf (← getField j "pre")
+    pure (jRoute (viaRoute k pre e))
+  | "trav" =>
+    let k ← kindOf j
+    let vn ← textOf (← getField j "vn")
+    let tree ← treeOf (← getField j "tree")
+    match viaTraversal k tree vn e with
+    | .error err => pure (Json.mkObj [("err", jErr err)])
+    | .ok (r, res) =>
+      pure (Json.mkObj [("view", jText r.viewName), ("ctx", jTexts r.context), ("sp", jTexts r.subpath),
+                        ("res", match res with | none => Json.null | some x => jRes x)])
+  | "nested" =>
+    let pre1 ← textOf (← getField j "pre1")
+    let pre2 ← textOf (← getField j "pre2")
+    match viaNested pre1 pre2 e with
+    | .error err => pure (Json.mkObj [("err", jErr err)])
+    | .ok none => pure (Json.mkObj [("match", false)])
+    | .ok (some (sp, .error err)) =>
+      pure (Json.mkObj [("match", true), ("sp", jTexts sp), ("res", jRes (.error err))])
+    | .ok (some (sp, .ok (e1, inner))) =>
+      pure (Json.mkObj [("match", true), ("sp", jTexts sp), ("res", jRes (.ok e1)), ("inner", jRoute inner)])
+  | _ => throw s!"unknown op {op}"
+
+end DrvX07
+
+def main : IO Unit := Pyr.jsonDriver DrvX07.run
